@@ -48,3 +48,6 @@ def run(ctx):
     from ..engines import dispatch as DP
     DP.d1_no_bypass_of_overridden_delegates(ctx, ("AbstractRule",))
     ctx.floor("D1", 1)
+    from ..engines import closure as GC
+    GC.g9_ungroup_only_when_grouping(ctx)
+    ctx.floor("G9", 1)
